@@ -268,6 +268,10 @@ func (e *env) fixture() error {
 	for _, u := range []string{roUser, woUser, otherUser, victimUser, grantUser} {
 		stmts = append(stmts, fmt.Sprintf("CREATE USER %s WITH PASSWORD '%s'", u, userPass))
 	}
+	// a retention policy whose removal by a cross-database DROP would be visible (crossdb.go)
+	for _, db := range []string{db1, db2} {
+		stmts = append(stmts, "CREATE RETENTION POLICY "+crossRP+" ON "+db+" DURATION 1d REPLICATION 1")
+	}
 	stmts = append(stmts, "GRANT READ ON "+db1+" TO "+roUser, "GRANT WRITE ON "+db1+" TO "+woUser,
 		"GRANT ALL ON "+db2+" TO "+otherUser, "GRANT ALL ON "+db1+" TO "+victimUser)
 	for _, q := range stmts {
